@@ -87,6 +87,52 @@ fn opt(w: &mut ZWorld, s: String) {
     w.calls.push(format!("opt({s})"));
 }
 
+#[when(expr = "user {string} has {int} apple(s)")]
+fn user(w: &mut ZWorld, name: String, n: u32) {
+    w.calls.push(format!("user({name},{n})"));
+}
+
+#[then(expr = "{string} tells {string} the word {word}")]
+fn say3(w: &mut ZWorld, a: String, b: String, c: String) {
+    w.calls.push(format!("say3({a},{b},{c})"));
+}
+
+#[given(expr = "price is {float}")]
+fn price(w: &mut ZWorld, p: f64) {
+    w.calls.push(format!("price({p})"));
+}
+
+#[when(regex = r"^move (left|right) by (-?\d+)$")]
+fn mv(w: &mut ZWorld, dir: String, n: i32) {
+    w.calls.push(format!("mv({dir},{n})"));
+}
+
+#[then(regex = "^async fails$")]
+async fn afail(w: &mut ZWorld) -> Result<(), String> {
+    futures::future::ready(()).await;
+    w.calls.push("afail()".into());
+    Err("async boom".into())
+}
+
+#[given(regex = r"^both (\w+) (\w+)$")]
+fn both(w: &mut ZWorld, #[step] s: &Step, args: &[String]) {
+    w.calls.push(format!("both({};{})", s.value, args.join(",")));
+}
+
+#[given("a.b (c)?")]
+fn meta(w: &mut ZWorld) {
+    w.calls.push("meta()".into());
+}
+
+#[when(expr = "a {animal} meets {int} {animal}(s)")]
+fn meets(w: &mut ZWorld, a: Animal, n: u8, b: Animal) {
+    let s = |x: &Animal| match x {
+        Animal::Cat => "cat",
+        Animal::Dog => "dog",
+    };
+    w.calls.push(format!("meets({},{n},{})", s(&a), s(&b)));
+}
+
 /// Looks up and executes one (keyword, text) on a fresh world.
 pub fn dispatch(l: &Value) -> Value {
     let coll = ZWorld::collection();
